@@ -277,17 +277,26 @@ class Check:
             self.samples.append(sample)
 
     # -- proofs
-    def proofs(self, build_res: BuildResult):
-        """Account for the proof obligations of Properties/<pid>.v."""
+    def proofs(self, build_res: BuildResult, extra_files=()):
+        """Account for the proof obligations of Properties/<pid>.v (and of further theorem-only files
+        Properties/<name>.v given in extra_files)."""
+        files = [self.pid, *extra_files]
         self.checker_cmd = ("cd /verif/coq && coq_makefile -f _CoqProject <all theories/*.v> -o Makefile"
-                            f" && make -j16 && coqc -Q theories GV theories/Properties/{self.pid}.v")
-        deps = dep_closure([f"Properties/{self.pid}.v"])
+                            " && make -j16 && " + " && ".join(
+                                f"coqc -Q theories GV theories/Properties/{n}.v" for n in files))
+        deps = dep_closure([f"Properties/{n}.v" for n in files])
         bad = scan_forbidden(deps)
         self.extra["coq_files"] = deps
+        self.extra["property_files"] = [f"Properties/{n}.v" for n in files]
         if bad:
             self.proof_breaks.append("forbidden construct: " + "; ".join(bad[:5]))
-        f = COQ / "theories" / "Properties" / f"{self.pid}.v"
-        names = re.findall(r"^\s*(?:Theorem|Lemma|Corollary)\s+(\w+)", f.read_text(), re.M) if f.exists() else []
+        names = []
+        for n in files:
+            f = COQ / "theories" / "Properties" / f"{n}.v"
+            if f.exists():
+                names += re.findall(r"^\s*(?:Theorem|Lemma|Corollary)\s+(\w+)", f.read_text(), re.M)
+            else:
+                self.proof_breaks.append(f"missing theorem file Properties/{n}.v")
         self.theorems = names
         self.obligations = len(names)
         self.partial = [n for n in names if n.endswith("_partial")]
@@ -296,14 +305,20 @@ class Check:
             self.proof_breaks.append(
                 f"build failed at {build_res.failed_file}: " + build_res.log[-800:])
             return False
-        ok, names2, assumptions, out = check_property_file(self.pid)
-        self.print_assumptions = assumptions
-        if ok:
-            self.discharged = len(names2)
-        else:
+        self.print_assumptions = []
+        self.discharged = 0
+        allok = True
+        for n in files:
+            ok, names2, assumptions, out = check_property_file(n)
+            self.print_assumptions += assumptions
+            if ok:
+                self.discharged += len(names2)
+            else:
+                allok = False
+                self.proof_breaks.append(f"coqc Properties/{n}.v failed: " + out[-800:])
+        if not allok:
             self.discharged = 0
-            self.proof_breaks.append(f"coqc Properties/{self.pid}.v failed: " + out[-800:])
-        return ok
+        return allok
 
     # -- violations
     def violation(self, key: str, what: str, replay: dict):
